@@ -228,8 +228,38 @@ func cmdCheck(args []string) int {
 		// the tree does not type-check: nothing can be proved about it
 		run.addSynthetic("load#typecheck", "binding", "the repository type-checks with -tags verif", strings.Join(e.loadErrs, "; "))
 	}
+	run.hints = map[string]string{}
+	hintFile := filepath.Join(*verif, "specs", "hints.json")
+	if data, err := os.ReadFile(hintFile); err == nil {
+		if err := json.Unmarshal(data, &run.hints); err != nil {
+			fmt.Fprintln(os.Stderr, "hints.json:", err)
+			return 2
+		}
+	}
 	run.collect(sweeps)
 	run.solve()
+	if os.Getenv("GOVC_WRITE_HINTS") != "" {
+		// maintenance mode (never part of a registered check): remember which portfolio variant discharged an
+		// obligation the primary configuration could not
+		for _, o := range run.obligs {
+			if o.Verdict == "unsat" && !o.Hinted && len(o.Attempts) > 1 {
+				for _, nm := range portfolio {
+					if o.Solver == nm {
+						run.hints[o.ID] = nm
+					}
+				}
+				if strings.HasPrefix(o.Solver, "z3-new-noext(slice-") {
+					run.hints[o.ID] = o.Solver
+				}
+			}
+			if o.Verdict == "unsat" && !o.Hinted && len(o.Attempts) <= 1 {
+				delete(run.hints, o.ID) // the primary configuration suffices again
+			}
+		}
+		if data, err := json.MarshalIndent(run.hints, "", " "); err == nil {
+			os.WriteFile(hintFile, data, 0o644)
+		}
+	}
 	code := run.report(known, *evOut, t0)
 	return code
 }
